@@ -8,7 +8,7 @@ From SK Require Import lib.LGraph model.C13_Model proof.C13_Proof.
 Import ListNotations.
 
 Definition bc_key_before (mode : attr_mode) (x : item) : list Z :=
-  match mode with ANone => [] | AStr => it_attr x | AList => it_attr x end.
+  match mode with ANone => [] | AStr => it_attr x | AList => it_attr x | AMixed => it_attr x end.
 
 Definition lib_check_before (iso : item -> item -> bool) (mode : attr_mode) (x : item) (ts : list template)
   : Z * list template :=
